@@ -120,6 +120,8 @@ EXOTIC = [
     # comment lines holding characters that str.splitlines (but not the DIMACS
     # format, whose lines end at a newline) takes for line ends, followed by
     # text that looks like DIMACS
+    # markers other tools put at the end of a formula (SATLIB '%' / '0' trailer)
+    '%', '% end', '%\t',
     'c a\x0c-1 0', 'c b\x1c1 0', 'c d\x852 0', 'c e\u2028-2 0', 'c\x0bp cnf 2 2', 'c f\u2029x 0',
 ]
 
